@@ -295,6 +295,12 @@ VARIANTS += [
    "		if _, ok := deletedTables[ve.NewTables[i].Meta.TableNum]; ok {\n			// This file is being moved in this ve to a different level.\n			// Don't mark it as obsolete.\n			continue\n		}\n", ""),
  V("c22-e2-decoder-wraps-reader-error", "C22", "C22.E2", "internal/manifest/version_edit.go",
    "			return 0, base.CorruptionErrorf(\"pebble: corrupt manifest: failed to read uvarint\")\n		}\n		return 0, err", "			return 0, base.CorruptionErrorf(\"pebble: corrupt manifest: failed to read uvarint\")\n		}\n		return 0, errors.Wrap(err, \"uvarint\")"),
+ V("c42-l3-metrics-without-manifest-lock", "C42", "C42.L3", "db.go",
+   "	d.mu.versions.logLock()\n	metrics.private.manifestFileSize", "	metrics.private.manifestFileSize"),
+ V("c41-e2-reader-wraps-eof", "C41", "C41.E2", "record/record.go",
+   "				return ErrUnexpectedEOF\n			}\n			return err\n		}\n		r.begin, r.end, r.n = 0, 0, n", "				return ErrUnexpectedEOF\n			}\n			return errors.Wrap(err, \"record\")\n		}\n		r.begin, r.end, r.n = 0, 0, n"),
+ V("c38-e2-reader-wraps-eof", "C38", "C38.E2", "record/record.go",
+   "				return ErrUnexpectedEOF\n			}\n			return err\n		}\n		r.begin, r.end, r.n = 0, 0, n", "				return ErrUnexpectedEOF\n			}\n			return errors.Wrap(err, \"record\")\n		}\n		r.begin, r.end, r.n = 0, 0, n"),
  V("c17-g1-zero-seqnum-in-any-stripe", "C17", "C17.G1", "internal/compact/iterator.go",
    "	return i.cfg.IsBottommostDataLayer && snapshotIdx == 0", "	return i.cfg.IsBottommostDataLayer"),
  V("c17-g2-elide-in-non-last-stripe", "C17", "C17.G2", "internal/compact/iterator.go",
